@@ -9,6 +9,7 @@ evaluation order the simulator may pick, with CBlock→SBlock event feedback.
 -/
 import EdzedModel.Simulate
 import EdzedProofs.Simulate
+import EdzedModel.Gen.Translated
 
 namespace Edzed.Sim
 
@@ -151,3 +152,31 @@ example : ∃ c : Circuit, c.ok ∧ c.cblocks.length = 2 :=
    rfl⟩
 
 end Edzed.Sim
+
+/-! ### tie to the source by translation
+
+tools/py2lean.py regenerates `Gen.Tr.compareCalc`, `overrideCalc`, `xorFunc` from `Compare.calc_output`,
+`Override.calc_output` and the lambda of `Xor` on every run. -/
+namespace Edzed.TrTie
+
+theorem translated_compare_is_model (low high : Rat) (own v : Val) (outC outS : Nat → Val) :
+    Sim.calcBlk { fn := .compare low high, pos := [.k v] } own outC outS
+      = Val.bool (Gen.Tr.compareCalc low high own (Sim.numOf v)) := by
+  unfold Gen.Tr.compareCalc
+  simp only [Sim.calcBlk, List.map, Sim.Src.val, List.headD]
+  cases own.isUndef <;> simp
+
+theorem translated_override_is_model (null inp ov : Val) (outC outS : Nat → Val) :
+    Sim.calcBlk { fn := .override null, named := [("input", .k inp), ("override", .k ov)] } .undef outC outS
+      = Gen.Tr.overrideCalc null inp ov := by
+  simp [Sim.calcBlk, Sim.lookupNamed, Sim.Src.val, Gen.Tr.overrideCalc]
+
+theorem translated_xor_is_model (pos : List Sim.Src) (own : Val) (outC outS : Nat → Val) :
+    Sim.calcBlk { fn := .xor, pos := pos } own outC outS
+      = Val.bool (Gen.Tr.xorFunc (pos.map (Sim.Src.val outC outS))) := by
+  simp only [Sim.calcBlk, Gen.Tr.xorFunc, Sim.countTruthy]
+  congr 1
+  generalize (List.filter Val.truthy (List.map (Sim.Src.val outC outS) pos)).length = n
+  rcases Nat.mod_two_eq_zero_or_one n with h | h <;> simp [h]
+
+end Edzed.TrTie
